@@ -222,9 +222,6 @@ impl Compactor {
                     }
                     v
                 };
-                let pin_version = self.storage.version.pin();
-                #[cfg(feature = "verif")]
-                crate::verif::point("compactor.pinned").await;
                 for (_, table) in tables {
                     #[cfg(feature = "verif")]
                     crate::verif::point(format!("compactor.table(t{})", table.table_id())).await;
@@ -232,9 +229,16 @@ impl Compactor {
                         .storage
                         .txn_mgr
                         .try_lock_for_compaction(table.table_id())
-                        && let Err(err) = self.compact_table(&pin_version.snapshot, table).await
                     {
-                        warn!("failed to compact: {:?}", err);
+                        // Pin the snapshot only after the table lock is held: a snapshot taken earlier
+                        // in the pass misses deletes committed meanwhile, and compacting from it would
+                        // bring the deleted rows back.
+                        let pin_version = self.storage.version.pin();
+                        #[cfg(feature = "verif")]
+                        crate::verif::point("compactor.pinned").await;
+                        if let Err(err) = self.compact_table(&pin_version.snapshot, table).await {
+                            warn!("failed to compact: {:?}", err);
+                        }
                     }
                 }
                 match self.stop.try_recv() {
